@@ -27,7 +27,7 @@ ASSUMPTIONS = ['refcodec is a faithful transcription of PS3.8 9.3 / Annex D (App
 REQUIRED = ['oracle.lib-bytes-parsed', 'oracle.total-length', 'oracle.ref-bytes-decoded',
             'oracle.nested-length']
 
-N_RANDOM = {'quick': 4000, 'thorough': 200000}
+N_RANDOM = {'quick': 4000, 'thorough': 1500000}
 SHARDS = {'quick': 8, 'thorough': 16}
 
 
